@@ -67,7 +67,8 @@ def decode(p, H, t, ex):
             for val, sv in ex_consts(ex):
                 if isinstance(val, str) and z3.is_true(m.eval(sv.t == v, model_completion=True)):
                     return val
-            return "<str>"
+            sval = m.eval(strval(a), model_completion=True)
+            return sval.as_string() if z3.is_string_value(sval) else "<str>"
         return f"<{kn}>"
     for _ in range(12):
         n0 = len(p.pc)
@@ -123,6 +124,10 @@ CASES = {
     "listcomp_alloc": [([1, 2],), ([],)],
     "insert_extend": [([1], [2, 3]), ([], [])],
     "str_prefix": [("abc",), ("abd",), ("xb",), ("q",)],
+    "untyped_dict": [({1: 5}, 1), ({1: 5}, 2), ([1], 0), (None, 0)],
+    "sentinel": [({1: 5}, 1), ({1: None}, 1), ({}, 3)],
+    "fstr": [("ab", "c"), ("", "")],
+    "int_or_bool": [(True,), (3,), (None,), ("s",)],
 }
 
 
